@@ -59,6 +59,12 @@ impl Database {
         (self.catalog.clone(), self.storage.clone())
     }
 
+    /// Verification access to the statistics (real or mocked) the next statement is planned with.
+    #[cfg(feature = "verif")]
+    pub async fn verif_statistics(&self) -> Result<Statistics, Error> {
+        self.get_storage_statistics().await
+    }
+
     pub async fn shutdown(&self) -> Result<(), Error> {
         if let StorageImpl::SecondaryStorage(storage) = &self.storage {
             storage.shutdown().await?;
